@@ -292,6 +292,49 @@ def check_rounds(system_spec, first, second, mode, acc):
                       'now carries %r instead of the marks of the first round %r' % (second, mode, got_original, want_first), case)
 
 
+def check_processor_reuse(first_spec, second_spec, requests, acc):
+    """ONE AnnotateMutMod instance over two systems in turn: the second run is judged on its own - marks and, above all, the
+    report of requests that match no residue of the SECOND system (whatever they matched in the first)."""
+    from vermouth.processors.annotate_mut_mod import AnnotateMutMod
+    ff = toy_ff()
+    case = {'layer': 'annotate-reuse', 'first': list(first_spec), 'second': list(second_spec), 'requests': [list(r) for r in requests]}
+    system1, _ = build(first_spec, ff)
+    system2, info2 = build(second_spec, ff)
+    want = expected_marks_for(info2, requests)
+    unmatched = []
+    for text, target in requests:
+        spec = ref_parse(text)
+        if not any(ref_matches(spec, res, res['degree'], res['nbrs']) for res in info2):
+            unmatched.append((text, target))
+    try:
+        processor = AnnotateMutMod(modifications=list(requests))
+        with common.LogCapture():
+            processor.run_system(system1)
+        with common.LogCapture() as log:
+            processor.run_system(system2)
+    except Exception as err:   # pylint: disable=broad-except
+        acc.case(outcome='exc')
+        acc.violation('c19:reuse-exception', 'one AnnotateMutMod over two systems raised %r' % (err,), case)
+        return
+    got = marks_of(system2, 'modification')
+    messages = log.messages()
+    acc.case(nontrivial=bool(unmatched), outcome=('reuse', len(want), len(unmatched), len(messages)))
+    if got != want:
+        acc.violation('c19:reuse-marks', 'second system %r: marks %r, the specifications select %r' % (list(second_spec), got, want), case)
+    elif len(messages) != len(unmatched) or any(not any(('mutation "%s"' % target) in m for m in messages) for _, target in unmatched):
+        acc.violation('c19:unmatched-request-not-reported(processor-reuse)', 'the same processor first ran on %r; on %r the requests %r match no '
+                      'residue, but the warnings were %r' % (list(first_spec), list(second_spec), unmatched, messages), case)
+
+
+def reuse_items():
+    reqs = [('A-GLY2', 'MODY'), ('B-ALA', 'MODX'), ('PO4#2', 'MODX'), ('GLY45', 'MODY'), ('nter', 'MODX')]
+    names = ['path', 'path-desc', 'lipid', 'single', 'star']
+    for first, second in itertools.permutations(names, 2):
+        for req in reqs:
+            yield (first,), (second,), [req]
+        yield (first,), (second,), [reqs[0], reqs[1]]
+
+
 def rounds_items(tier):
     names = ['path', 'star', 'icodes'] if tier == 'quick' else list(SHAPES)
     reqs = [('ALA', 'MODX'), ('A-GLY2', 'MODY'), ('nter', 'MODX'), ('#1', 'MODY'), ('A-cter', 'MODX')]
@@ -311,6 +354,10 @@ def work(task):
     if kind == 'rounds':
         for system_spec, first, second, mode in items:
             check_rounds(system_spec, first, second, mode, acc)
+        return acc
+    if kind == 'reuse':
+        for first_spec, second_spec, requests in items:
+            check_processor_reuse(first_spec, second_spec, requests, acc)
         return acc
     if kind == 'annotate':
         for system_spec, requests, which in items:
@@ -357,6 +404,11 @@ def run(ctx):
     for part in common.pmap(work, [('rounds', chunk) for chunk in common.chunked(ritems, max(1, len(ritems) // 16))]):
         acc += part
     ctx.layer('annotate-rounds', acc)
+    uitems = list(reuse_items())
+    acc = Acc()
+    for part in common.pmap(work, [('reuse', chunk) for chunk in common.chunked(uitems, max(1, len(uitems) // 16))]):
+        acc += part
+    ctx.layer('annotate-processor-reuse', acc)
     from props import c19_repair
     c19_repair.run_layer(ctx)
     from props import c19_cli
@@ -372,6 +424,9 @@ def replay(case):
     if case.get('layer') == 'repair':
         from props import c19_repair
         return c19_repair.replay(case)
+    if case.get('layer') == 'annotate-reuse':
+        check_processor_reuse(tuple(case['first']), tuple(case['second']), [tuple(r) for r in case['requests']], acc)
+        return [(s, d) for s, d, _ in acc.violations]
     if case.get('layer') == 'annotate-rounds':
         check_rounds(tuple(case['system']), [tuple(r) for r in case['first']], [tuple(r) for r in case['second']], case['mode'], acc)
         return [(s, d) for s, d, _ in acc.violations]
